@@ -685,8 +685,16 @@ theorem isEntries_perm {m : MapSpec.Map} {l1 l2 : List Entry} (hp : l1.Perm l2) 
 theorem lookupAll_freshSt (t : List Leaf) (k : List Nat) (st : Strategy) :
     TrieBuf.lookupAll (freshSt t) k st = dedup (Trie.lookupAll t k st) := by
   have h : ∀ l : List Phrase, l.filter (fun _ => true) = l := fun l => List.filter_eq_self.mpr (fun _ _ => rfl)
-  simp [TrieBuf.lookupAll, TrieBuf.entriesIterFor, freshSt, TrieBuf.initFile, TrieBuf.initMem, TrieBuf.btreeRange,
-    TrieBuf.btHas, h]
+  have he : ∀ l : List Entry, l.filter (fun _ => true) = l := fun l => List.filter_eq_self.mpr (fun _ _ => rfl)
+  cases st with
+  | standard =>
+    simp [TrieBuf.lookupAll, TrieBuf.entriesIterFor, freshSt, TrieBuf.initFile, TrieBuf.initMem, TrieBuf.btreeRange,
+      TrieBuf.btHas, h]
+  | fuzzyPartialPrefix =>
+    -- since fix 097161a the prefix lookup goes through `entries()`; nothing is pending in a fresh state
+    rw [← TrieBuf.trie_entries_fuzzy]
+    simp [TrieBuf.lookupAll, TrieBuf.entriesIterFor, TrieBuf.entries, freshSt, TrieBuf.initFile, TrieBuf.initMem,
+      TrieBuf.btEntries, TrieBuf.btHas, he]
 
 theorem entries_freshSt (t : List Leaf) : TrieBuf.entries (freshSt t) = Trie.entries t := by
   simp [TrieBuf.entries, freshSt, TrieBuf.initFile, TrieBuf.initMem, TrieBuf.btEntries, TrieBuf.btHas]
